@@ -67,10 +67,25 @@ def run(ctx):
         return {"noise_names": fam}
 
     conn_common.dedicated(ctx, "c04conn", [], build)
+    # client level, Noise: the expectation in force when the session is made decides (set / changed / cleared on the client
+    # between the phases and between sessions) - Client.tla NameBad
+    from vf import clientsim
+    from vf.props import c19
+
+    res = c19.run_family(ctx, "client_names", clientsim.names_family([dict(noise=True, login=False)]))
+    ctx.evaluations += res["n"]
+    ctx.distinct |= {("client_names", i) for i in range(res["n"])}
+    for f in res["findings"]:
+        ctx.violation(f"Client/client_names/{f['cause']}/{'+'.join(f['fields'])}", {"kind": "client-trace", "family": "client_names", **f})
     ctx.rule += "; connection level: name announced in the server hello x name in the encrypted HelloResponse x expected name, on the real APIConnection, validated by TLC"
 
 
 def replay(ctx, case):
+    if case.get("kind") == "client-trace":
+        from vf.props import c19
+
+        c19.replay(ctx, case)
+        return
     if case.get("kind") == "conn-trace":
         conn_common.replay_case(ctx, case)
         return
